@@ -1,14 +1,17 @@
 #!/bin/bash
 # usage: mutcheck.sh <mutation dir> <property> [only-regex] [tier]
-# applies the patch to /repo, runs the check, reverts; prints DETECTED / MISSED
+# applies the patch in a scratch worktree of /repo (never /repo itself), runs the check against it with
+# GV_REPO, removes the worktree; prints DETECTED / MISSED
 d=$1; pid=$2; only=$3; tier=${4:-quick}
-cd /repo || exit 3
-git diff --quiet || { echo "repo dirty"; exit 3; }
-git apply "$d/patch.diff" || { echo "patch does not apply"; exit 3; }
+wt=/tmp/wt-mut-$(basename $d)-$$
+git -C /repo worktree add -q --detach $wt HEAD || exit 3
+git -C $wt apply "$d/patch.diff" || { echo "patch does not apply"; git -C /repo worktree remove --force $wt; exit 3; }
 cd /verif
-if [ -n "$only" ]; then ./check $pid --tier $tier --only "$only" --no-evidence > /tmp/mutcheck-$$.log 2>&1; else ./check $pid --tier $tier --no-evidence > /tmp/mutcheck-$$.log 2>&1; fi
+log=/tmp/mutcheck-$$.log
+if [ -n "$only" ]; then GV_REPO=$wt ./check $pid --tier $tier --only "$only" --no-evidence > $log 2>&1; else GV_REPO=$wt ./check $pid --tier $tier --no-evidence > $log 2>&1; fi
 rc=$?
-git -C /repo checkout -- .
-grep -E "VIOLATION|KNOWN|PROBLEM|INCONCLUSIVE|done:" /tmp/mutcheck-$$.log | cut -c1-220
+grep -E "VIOLATION|KNOWN|PROBLEM|INCONCLUSIVE|done:" $log | cut -c1-220
 if [ $rc -eq 1 ]; then echo "== $(basename $d): DETECTED"; else echo "== $(basename $d): MISSED (rc=$rc)"; fi
-rm -f /tmp/mutcheck-$$.log
+rm -f $log
+git -C /repo worktree remove --force $wt
+h=$(echo -n $wt | sha1sum | cut -c1-8); rm -rf /verif/.target/alt-$h
